@@ -120,7 +120,7 @@ class Tracer(PagingTracer):
                                     break
                                 prev_frame = frame
                     else:
-                        next_int += frame_duration
+                        next_int = ((tstates + frame_duration - int_active) // frame_duration) * frame_duration
 
                 pc = registers[24]
                 operations += 1
